@@ -71,6 +71,7 @@ JudgeFile(e) ==
     ELSE IF ~(SolverNames \subseteq Range(e.globals)) THEN Drift("C20_ResolvesSolverNames")
     ELSE IF e.tol # blk.tolText \/ e.maxTime # blk.maxTime THEN Drift("C20_AttributesFromCurrentBlock")
     ELSE IF ~e.vectorIsTuple THEN Drift("C20_VectorIsTuple")
+    ELSE IF ~e.exoVerbatim THEN Drift("C20_ExogenousDeclaredVerbatim")
     ELSE IF ~ObsClosed(e) THEN Drift("C20_Closed")
     ELSE IF ~IteratorEvaluates(parser, [iterReads |-> e.iterReads]) THEN Drift("C20_IteratorEvaluatesEquations")
     ELSE IF ~(e.loopAfterPack \/ Range(NamesOf(e.pack)) \cap LoopNames = {}) THEN Drift("C20_LoopStateOwn")
